@@ -427,6 +427,10 @@ def _ev(e):
         return "ERet"
     if k == "gr":
         return "EGR"
+    if k == "rpx":
+        return "ERPX"
+    if k == "px":
+        return "EPX %s" % cnat(e[1])
     raise ValueError(k)
 
 
@@ -566,7 +570,7 @@ def classify(case, obs):
         return None
     acts = [a["op"] for it in case["items"] for a in it["acts"]]
     cand = None
-    if kind == "panic" and out.get("p") == -1:
+    if (kind == "panic" and out.get("p") == -1) or any(e[0] == "rpx" for e in tr):
         # the race: the reducer's write began (rw, no matching rd) before any cancel had completed and before the
         # context was cancelled - otherwise the guard had to drop the value and the panic is something else
         rws = [i for i, e in enumerate(tr) if e[0] == "rw"]
